@@ -60,14 +60,125 @@ def _w(x):
 
 
 def real2(arr, key):
+    return _real_obj(arr, _pykey2(key))
+
+
+def _real_obj(arr, pykey):
+    """arr[pykey] for the Python key OBJECT given (not rebuilt: a caller's list stays the caller's list)."""
     before = (id(arr.data), tuple(id(e) for e in arr.data), tuple(arr.shape))
     try:
-        out = _canon(arr[_pykey2(key)])
+        out = _canon(arr[pykey])
     except Exception as e:
         out = ["err", core.err_name(e)]
     if (id(arr.data), tuple(id(e) for e in arr.data), tuple(arr.shape)) != before:
         return ["err", "SourceArrayMutated"]      # indexing must leave the indexed array alone
     return out
+
+
+# ---------------------------------------------------------------------------------------------
+# object histories: several lookups on ONE array object, and ONE coordinate-list object that the caller mutates in place between
+# lookups.  A lookup is a function of the array's contents and the key's CURRENT contents - never of an earlier lookup.
+# A scenario is (shapes, steps); the arrays of `shapes` are built once, then the steps run in order:
+#   ("k", a, key)     arrays[a][key]  with a freshly built Python key (wire form as everywhere in this file)
+#   ("L", a)          arrays[a][cells] with THE shared list object `cells`
+#   ("new", pairs) ("app", pair) ("ext", pairs) ("del", i) ("set", i, pair) ("clear",)   rebind / mutate `cells` in place
+HISTORY_SHAPES = [(1, 1), (2, 3), (3, 3), (3, 4), (5, 2), (1, 300)]
+FAMILIES = ("bool-flat", "int-flat", "bool-nested", "int-nested")
+
+
+def _history_scenarios():
+    full = ("s", None, None, None)
+    out = []
+    for (h, w) in HISTORY_SHAPES:
+        # one key list growing, getting an out-of-range pair, shrinking, being overwritten, emptied, refilled
+        out.append(("mutated-key-list", [(h, w)], [
+            ("new", ((0, 0), (h - 1, w - 1))), ("L", 0), ("app", (-1, 0)), ("L", 0), ("L", 0), ("app", (h, 0)), ("L", 0),
+            ("del", -1), ("L", 0), ("set", 0, (0, w - 1)), ("L", 0), ("del", 0), ("L", 0), ("clear",), ("L", 0),
+            ("ext", ((h - 1, 0), (0, 0), (-h, -w))), ("L", 0), ("app", (0, w)), ("L", 0), ("set", -1, (0, -w)), ("L", 0),
+            ("set", 1, (True, False)), ("L", 0), ("del", 1), ("L", 0), ("clear",), ("app", (-h - 1, 0)), ("L", 0), ("set", 0, (-h, 0)),
+            ("L", 0)]))
+        # the first lookup with the list fails, the list is repaired in place
+        out.append(("key-list-repaired", [(h, w)], [
+            ("new", ((0, 0), (0, w))), ("L", 0), ("set", 1, (0, w - 1)), ("L", 0), ("app", (h - 1, 0)), ("L", 0)]))
+        # different keys, one after the other, on one array object; identical lookups repeated; equal-but-different keys
+        out.append(("interleaved-keys", [(h, w)], [
+            ("k", 0, ("one", ("i", 0))), ("k", 0, ("one", ("s", None, None, -1))), ("k", 0, ("pair", ("i", 0), ("i", w - 1))),
+            ("k", 0, ("pair", full, ("i", 0))), ("k", 0, ("coords", (0, 0))), ("k", 0, ("one", ("i", 0))), ("k", 0, ("one", ("i", -1))),
+            ("k", 0, ("pair", ("i", 0), ("i", 0))), ("k", 0, ("pair", ("i", 0), ("i", 0))), ("k", 0, ("one", ("i", True))),
+            ("k", 0, ("one", ("i", 1))), ("k", 0, ("one", ("i", False))), ("k", 0, ("one", ("i", 0))),
+            ("k", 0, ("pair", ("i", False), ("i", False))), ("k", 0, ("pair", ("i", 0), ("i", 0))), ("k", 0, ("one", ("i", h))),
+            ("k", 0, ("one", ("i", 0))), ("k", 0, ("coords", (0, 0), (h - 1, w - 1))), ("k", 0, ("coords", (0, 0), (h - 1, w - 1))),
+            ("k", 0, ("coords", (0, 0))), ("k", 0, ("coords",)), ("k", 0, ("one", full)), ("k", 0, ("pair", full, full)),
+            ("k", 0, ("one", ("s", 0, None, None))), ("k", 0, ("one", full)), ("k", 0, ("pair", ("s", None, None, -1), full)),
+            ("k", 0, ("pair", full, ("s", None, None, -1))), ("k", 0, ("pair", ("i", -1), ("i", -1))), ("k", 0, ("coords", (-1, -1))),
+            ("k", 0, ("pair", ("i", h - 1), ("i", w - 1))), ("k", 0, ("one", ("i", h - 1))), ("k", 0, ("one", ("i", -h))),
+            ("k", 0, ("one", ("i", -h - 1))), ("k", 0, ("one", ("i", -h)))]))
+        # one key list used on two arrays of different shapes in turn, mutated in between
+        out.append(("key-list-two-arrays", [(h, w), (h + 1, w + 2)], [
+            ("new", ((0, 0), (h - 1, w - 1))), ("L", 0), ("L", 1), ("app", (-1, -1)), ("L", 1), ("L", 0), ("app", (h, w + 1)), ("L", 0),
+            ("L", 1), ("k", 0, ("pair", ("i", -1), full)), ("k", 1, ("pair", ("i", -1), full)), ("set", 0, (h - 1, 0)), ("L", 1),
+            ("L", 0), ("del", 2), ("L", 0), ("L", 1)]))
+    return out
+
+
+def _history_arrays(shapes, family):
+    return [_arrays(h, w, nested=family.endswith("nested"))[0 if family.startswith("bool") else 1] for (h, w) in shapes]
+
+
+def _run_history(shapes, steps, family):
+    """-> [(step index, array index, the key in wire form as it stands at that moment, real result)] for every lookup step."""
+    arrs = _history_arrays(shapes, family)
+    cells = []
+    obs = []
+
+    def pair(p):
+        return tuple(_fresh(c) for c in p)
+    for i, st in enumerate(steps):
+        op = st[0]
+        if op == "k":
+            obs.append((i, st[1], st[2], real2(arrs[st[1]], st[2])))
+        elif op == "L":
+            key = ("coords",) + tuple(cells)
+            obs.append((i, st[1], key, _real_obj(arrs[st[1]], cells)))
+            if ("coords",) + tuple(cells) != key:
+                obs[-1] = (i, st[1], key, ["err", "KeyListMutated"])     # a lookup must leave the caller's key alone
+        elif op == "new":
+            cells = [pair(p) for p in st[1]]
+        elif op == "app":
+            cells.append(pair(st[1]))
+        elif op == "ext":
+            cells.extend(pair(p) for p in st[1])
+        elif op == "del":
+            del cells[st[1]]
+        elif op == "set":
+            cells[st[1]] = pair(st[2])
+        elif op == "clear":
+            cells.clear()
+        else:
+            raise ValueError(op)
+    return obs
+
+
+def _history_fail(shapes, steps, families=FAMILIES):
+    """First lookup of the scenario whose result differs from what the list of lists gives for the key's contents at that moment."""
+    for family in families:
+        for (i, a, key, r) in _run_history(shapes, steps, family):
+            h, w = shapes[a]
+            o = oracle2(h, w, key)
+            if r != o:
+                return {"shapes": [list(s) for s in shapes], "steps": list(steps[:i + 1]), "family": family, "shape": [h, w], "key": key,
+                        "real": r, "expected": o}
+    return None
+
+
+def _history_finding(label, f):
+    return Finding("getitem:history",
+                   f"{f['family']} arrays of shapes {f['shapes']}: after the steps {sx(f['steps'][:-1])[:400]} (k = lookup with a new key, "
+                   f"L = lookup with the caller's one list object, new/app/ext/del/set/clear = that list rebound / mutated in place) the "
+                   f"lookup {sx(f['steps'][-1])} with key {sx(f['key'])[:200]} on the {f['shape'][0]}x{f['shape'][1]} array returns "
+                   f"{sx(f['real'])[:200]} but the list of lists gives {sx(f['expected'])[:200]} ({label})",
+                   {"history": {"shapes": f["shapes"], "steps": f["steps"], "family": f["family"]}, "real": f["real"],
+                    "expected": f["expected"]})
 
 
 def real1(n, k, boolean=True):
@@ -313,6 +424,10 @@ def correspond(ctx):
                          "object; bools go to the Lean model as 1/0; "
                          "real Array2D/Array1D __getitem__ vs Lean model vs Lean spec vs CPython list-of-lists oracle; "
                          "a case is non-trivial+distinct by (shape, key) when the selection is non-empty or an error; "
+                         "object histories (deterministic, shapes " + str(HISTORY_SHAPES) + ", Bool/Int, flat/nested): one coordinate-list object "
+                         "looked up, mutated in place (append, out-of-range append, del, item assignment, clear, extend) and looked up again "
+                         "on the same array and on two arrays in turn; repeated identical lookups; int / bool / slice / pair / list keys "
+                         "interleaved on one array object - each lookup vs the model and the list of lists for the key's current contents; "
                          "nested-list constructor: every shape 1x0..4x4 with random distinct ids, the empty list, one short / one long row at "
                          "every position, random rectangular/jagged lists; rows as lists, tuples, iterators; Bool and Int classes; real "
                          "(shape, ids) or exception class vs the model's ofNested (distinct by the nested list)")
@@ -355,6 +470,25 @@ def correspond(ctx):
             ctx.disagree("model-vs-code", shape=[h, w], key=sx(key), real=sx(r), model=sx(m))
         if os_ != s:
             ctx.disagree("spec-vs-cpython", shape=[h, w], key=sx(key), cpython=sx(o), spec=sx(s))
+    # object histories (deterministic): lookups one after the other on one array object, one key list mutated in place in between
+    hobs = []
+    for (label, shapes, steps) in _history_scenarios():
+        for family in FAMILIES:
+            for (i, a, key, r) in _run_history(shapes, steps, family):
+                hobs.append((label, shapes, steps, family, i, a, key, r))
+    outs = drv.run([sx(["gi2", shapes[a][0], shapes[a][1], _w(key)]) for (_, shapes, _, _, _, a, key, _) in hobs])
+    for (label, shapes, steps, family, i, a, key, r), out in zip(hobs, outs):
+        h, w = shapes[a]
+        m = core.parse_sx(out)
+        o = oracle2(h, w, key)
+        ctx.count("history:" + label)
+        ctx.case({"history": label, "shape": [h, w], "step": i, "key": sx(key)[:120], "real": sx(r)[:120]},
+                 ("history", label, h, w, family, i))
+        if [str(x) for x in r] != m:
+            ctx.disagree("model-vs-code:history", scenario=label, family=family, shapes=[list(s) for s in shapes],
+                         steps=sx(steps[:i + 1])[:600], key=sx(key)[:200], real=sx(r)[:200], model=sx(m)[:200])
+        if [str(x) for x in o] != m:
+            ctx.disagree("spec-vs-cpython:history", shape=[h, w], key=sx(key)[:200], cpython=sx(o)[:200], model=sx(m)[:200])
     # the nested-list constructor itself: Array2D(rows) with the shape inferred (_infer_shape + _flatten) vs the model's ofNested
     ncases = _nested_cases(ctx.rng, 4, 4)
     for _ in range(ctx.n(300, 3000)):
@@ -574,6 +708,11 @@ def search(ctx, why):
                     ok = False
                 if not ok and "reshape" not in found:
                     found["reshape"] = Finding("reshape", f"reshape of length {n} to {h}x{w} misbehaves", {"n": n, "h": h, "w": w, "reshape": True})
+    # object histories: one key list mutated in place between lookups, different keys interleaved on one array object
+    for (label, shapes, steps) in _history_scenarios():
+        f = _history_fail(shapes, steps)
+        if f and "history" not in found:
+            found["history"] = _history_finding(label, f)
     return list(found.values())
 
 
@@ -598,11 +737,17 @@ def replay(ctx, data):
             if r != o:
                 return Finding("getitem:1d", f"{sx(r)} vs {sx(o)}", data)
         return None
-    if "key" not in data:
-        return None
-
     def tup(k):
         return tuple(tup(x) if isinstance(x, list) else x for x in k)
+    if "history" in data:
+        hd = data["history"]
+        shapes = [tuple(s) for s in hd["shapes"]]
+        steps = [tup(st) for st in hd["steps"]]
+        fam = hd.get("family")
+        f = _history_fail(shapes, steps, ([fam] if fam in FAMILIES else []) + [x for x in FAMILIES if x != fam])
+        return _history_finding("replayed", f) if f else None
+    if "key" not in data:
+        return None
     key = tup(data["key"])
     f = _fail(data["h"], data["w"], key)
     if f:
